@@ -25,7 +25,7 @@ import (
 )
 
 type psEnv struct {
-	truth map[ssa.Value]bool      // known truth of boolean values
+	truth map[ssa.Value]bool     // known truth of boolean values
 	sel   map[*ssa.Phi]ssa.Value // operand selected by a boolean phi on this path
 }
 
@@ -256,7 +256,6 @@ func psReachable(fn *ssa.Function, target *ssa.BasicBlock, cut []Edge, alts []FP
 	}
 	return false, true, nDyn
 }
-
 
 // guardedLocal: site is unreachable from the entry of its own function once the
 // edges establishing one of alts are removed (statically, then path-sensitively).
